@@ -165,7 +165,7 @@ func (e *Engine) verifyFunc(name, prop string, safety bool) *FuncResult {
 				useOut, useNames = okOut, okNames
 				rets = okr
 			}
-			if len(rets) >= 2 && len(rets) <= 8 {
+			if len(rets) >= 2 && len(rets) <= 32 {
 				// one obligation per return site: the solvers handle the path-specific states
 				// far better than their join
 				for k, rr := range rets {
